@@ -130,7 +130,12 @@ def v_case(res, case, lib, cmap, dff):
         text, ports, inst, in_names, out_names_r = render.verilog(nl, cmap, dff, opts)
         case['text'] = text
         c = verilog.parse(text, tlib=lib, branchforks=case['bf'])
-        if common.h64(text) % 3 == 0:
+        if isinstance(c, list):      # several modules in one file: one circuit per module, in file order; the netlist under test is the last one
+            if [x.name for x in c] != ['decoy', 'top']:
+                res.violation(key + '/modules', case, f'parse returned circuits {[x.name for x in c]} for the modules decoy, top\n{text}'); return
+            c = c[-1]
+            res.count('v_multi_module')
+        if common.h64(text) % 3 == 0 and not opts.multi_module:
             # the result of parsing is a function of the text alone: a second parse (after all the parses this worker did before)
             # gives the same circuit, and the first one is not touched by it
             d1 = structure(c)
